@@ -46,3 +46,41 @@ pub proof fn lemma_chain_append_body(a: Seq<ChainItemV>, b: Seq<ChainItemV>, x: 
         if i < a.len() - 2 { assert(b[i + 1] == a[i + 1]); }
     }
 }
+
+// ---- W for chains (C01 / C06): the items carry the words; print_doc emits them in order ----
+pub open spec fn chain_w(s: Seq<ChainItemV>) -> Seq<Seq<char>> decreases s.len() {
+    if s.len() == 0 { Seq::empty() } else { chain_w(s.drop_last()) + wd(ci_doc(s.last())) }
+}
+#[verifier::opaque]
+pub open spec fn chain_wst(s: Seq<ChainItemV>) -> bool { forall|i: int| 0 <= i < s.len() ==> wst(ci_doc(#[trigger] s[i])) }
+pub proof fn lemma_chain_wst_at(s: Seq<ChainItemV>, i: int)
+    requires chain_wst(s), 0 <= i < s.len(),
+    ensures wst(ci_doc(s[i])),
+{ reveal(chain_wst); }
+pub proof fn lemma_chain_w_push(s: Seq<ChainItemV>, it: ChainItemV)
+    ensures chain_w(s.push(it)) == chain_w(s) + wd(ci_doc(it)), chain_wst(s.push(it)) == (chain_wst(s) && wst(ci_doc(it))),
+{
+    reveal_with_fuel(chain_w, 2); reveal(chain_wst);
+    let t = s.push(it);
+    assert(t.drop_last() =~= s);
+    if chain_wst(t) { assert forall|i: int| 0 <= i < s.len() implies wst(ci_doc(#[trigger] s[i])) by { assert(t[i] == s[i]); } assert(t[s.len() as int] == it); }
+    if chain_wst(s) && wst(ci_doc(it)) { assert forall|i: int| 0 <= i < t.len() implies wst(ci_doc(#[trigger] t[i])) by { if i < s.len() { assert(t[i] == s[i]); } } }
+}
+pub proof fn lemma_chain_w_step(s: Seq<ChainItemV>, k: int)
+    requires 0 <= k < s.len(),
+    ensures chain_w(s.subrange(0, k + 1)) == chain_w(s.subrange(0, k)) + wd(ci_doc(s[k])),
+{
+    assert(s.subrange(0, k + 1) =~= s.subrange(0, k).push(s[k]));
+    lemma_chain_w_push(s.subrange(0, k), s[k]);
+}
+/// the last body gets a document appended (fallback of `process`)
+pub proof fn lemma_chain_w_append_body(a: Seq<ChainItemV>, x: DocV)
+    requires a.len() > 0, a.last() is Body,
+    ensures chain_w(a.update(a.len() - 1, ChainItemV::Body(cat(ci_doc(a.last()), x)))) =~= chain_w(a) + wd(x),
+        chain_wst(a) && wst(x) ==> chain_wst(a.update(a.len() - 1, ChainItemV::Body(cat(ci_doc(a.last()), x)))),
+{
+    reveal_with_fuel(chain_w, 2); reveal(chain_wst); reveal_with_fuel(words, 2); reveal_with_fuel(alt_ok, 2);
+    let b = a.update(a.len() - 1, ChainItemV::Body(cat(ci_doc(a.last()), x)));
+    assert(b.drop_last() =~= a.drop_last());
+    if chain_wst(a) && wst(x) { assert forall|i: int| 0 <= i < b.len() implies wst(ci_doc(#[trigger] b[i])) by { if i < a.len() - 1 { assert(b[i] == a[i]); } else { assert(wst(ci_doc(a[a.len() - 1]))); } } }
+}
